@@ -230,7 +230,7 @@ def check_bundled(case, ctx):
 
 
 SUBS = [
-    Sub("read", check_read, strategy=read_strategy, examples={"quick": 450, "thorough": 3000}, shards={"quick": 8, "thorough": 16}),
+    Sub("read", check_read, strategy=read_strategy, examples={"quick": 450, "thorough": 3000}, shards={"quick": 8, "thorough": 16}, fuzz={"thorough": 150}),
     Sub("bundled", check_bundled, enumerate=bundled_cases, examples={"quick": 2, "thorough": 2}, shards={"quick": 2, "thorough": 2}, exhaustive=False),
 ]
 
